@@ -17,7 +17,7 @@ __CPROVER_requires(__CPROVER_r_ok(source, source_size))
 __CPROVER_requires(__CPROVER_r_ok(callbacks, sizeof(*callbacks)) && VERIF_REC_TABLE_IS(callbacks))
 __CPROVER_requires(g_ev_count == 0 && g_ev_slot == EV_NONE)
 /* stateless, allocates nothing: the frame is the recorder's ghost state only */
-__CPROVER_assigns(g_ev_count, g_ev_slot, g_ev_arg, g_ev_ptr, g_ev_fbits, g_ev_dbits, g_ev_bool, g_ev_ctx)
+__CPROVER_assigns(g_ev)
 /* exactly one of three outcomes */
 __CPROVER_ensures(__CPROVER_return_value.status == CBOR_DECODER_FINISHED ||
                   __CPROVER_return_value.status == CBOR_DECODER_NEDATA ||
